@@ -52,7 +52,7 @@ class U(core.Unit):
     requires = ['ME.Model.Prelude', 'ME.Model.Hierarchy']
     mirrors = [('mir_eval/hierarchy.py', f) for f in
                ['_round', '_hierarchy_bounds', '_lca', '_meet', '_gauc', '_compare_frame_rankings', '_count_inversions',
-                'validate_hier_intervals', 'tmeasure', 'lmeasure']] + \
+                'validate_hier_intervals', 'tmeasure', 'lmeasure', 'evaluate', '_align_intervals']] + \
               [('mir_eval/segment.py', 'validate_structure'), ('mir_eval/util.py', 'validate_intervals'),
                ('mir_eval/util.py', 'index_labels'), ('mir_eval/util.py', 'f_measure')]
     counts = {'quick': 600, 'thorough': 5000}
@@ -65,7 +65,15 @@ Inductive case :=
 | LCAF (n : nat) (F : list (list (Z * Z))) (out : mat)
 | MEETF (n : nat) (F : list (list seg)) (out : mat)
 | TM (r e : hier) (tr : bool) (w : option Q) (fs beta : Q) (out : res (Q * Q * Q))
-| LM (r e : lhier) (fs beta : Q) (out : res (Q * Q * Q)).
+| LM (r e : lhier) (fs beta : Q) (out : res (Q * Q * Q))
+(* hierarchy.evaluate on annotations that already start at 0 and end together (so that _align_intervals is the identity, checked by the
+   harness): the nine scores are T reduced, T full (both with the window) and L (never windowed), in that order *)
+| EV (r e : lhier) (w : option Q) (fs beta : Q) (out : res (list (Q * Q * Q))).
+Definition unlabel (L : lhier) : hier := map (map (fun x => (fst (fst x), snd (fst x)))) L.
+Definition evaluate_model (r e : lhier) (w : option Q) (fs beta : Q) : res (list (Q * Q * Q)) :=
+  a <- tmeasure (unlabel r) (unlabel e) false w fs beta ;;
+  b <- tmeasure (unlabel r) (unlabel e) true w fs beta ;;
+  c <- lmeasure r e fs beta ;; Ok [a; b; c].
 Definition mat_eqb : mat -> mat -> bool := list_eqb (list_eqb Nat.eqb).
 Definition close3 (a b : Q * Q * Q) : bool :=
   let '(p, r, f) := a in let '(p', r', f') := b in
@@ -78,6 +86,7 @@ Definition check_case (c : case) : bool :=
   | MEETF n F o => mat_eqb (meet_frames n F) o
   | TM r e tr w fs b o => res_eqb close3 (tmeasure r e tr w fs b) o
   | LM r e fs b o => res_eqb close3 (lmeasure r e fs b) o
+  | EV r e w fs b o => res_eqb (list_eqb close3) (evaluate_model r e w fs b) o
   end.
 '''
 
@@ -130,6 +139,11 @@ Definition check_case (c : case) : bool :=
             out.append(['lm', ref, lr, ref, lr, fs, 1.0])
         out.append(['lm', three, [['s'], ['a', 'A'], ['x', 'y', 'X', 'z']], three, [['s'], ['a', 'b'], ['x', 'y', 'x', 'y']], 0.25, 2.0])
         out.append(['lm', [], [], est, le, 1.0, 1.0])
+        aba = [[[0, 12.0]], [[0, 4.0], [4.0, 8.0], [8.0, 12.0]]]
+        for w in (None, 2.0, 4.0, 6.0, 100.0):
+            for fs in (1.0, 0.5):
+                out.append(['ev', aba, [['s'], ['a', 'b', 'a']], aba[:1] + [[[0, 6.0], [6.0, 12.0]]], [['s'], ['a', 'a']], w, fs, 1.0])
+                out.append(['ev', three, [['s'], ['a', 'A'], ['x', 'y', 'X', 'z']], three, [['s'], ['a', 'b'], ['x', 'y', 'x', 'y']], w, fs, 2.0])
         out.append(['lca', [], 0.5])
         out.append(['lca', [[]], 0.5])
         out.append(['lca', [[[1.0, 2.0], [2.0, 3.5]]], 0.5])
@@ -211,6 +225,10 @@ Definition check_case (c : case) : bool :=
                 elif y < 0.08 and len(e) > 1:
                     e[-1][-1][1] += 0.25
                 out.append(['lm', r, lr, e, le, fs, rng.choice([1.0, 1.0, 0.5, 2.0])])
+                if fs > 0 and rng.random() < 0.5:
+                    # the same annotations through evaluate(), with a window for the T-measures (the L-measure has none)
+                    w = rng.choice([None, fs * rng.randint(2, 6), fs * rng.randint(2, 4) + 0.0625, 1000.0])
+                    out.append(['ev', r, lr, e, le, w, fs, rng.choice([1.0, 0.5, 2.0])])
         return out
 
     # ---------------------------------------------------------------------------------------------
@@ -246,6 +264,24 @@ Definition check_case (c : case) : bool :=
                 n, fr = self._frames(case[1], case[3])
                 return ['ok', M, n, fr]
             return ['ok', M]
+        if k == 'ev':
+            _, r, lr, e, le, w, fs, beta = case
+            # evaluate() first re-aligns both annotations; the model is stated for annotations on which that is the identity
+            try:
+                _, t_end = H._hierarchy_bounds(arrays(r))
+                ra, rla = H._align_intervals(arrays(r), lr, t_min=0.0, t_max=None)
+                ea, ela = H._align_intervals(arrays(e), le, t_min=0.0, t_max=t_end)
+                same = all(len(a) == len(b) and (not len(b) or float(abs(a - b).max()) == 0.0) for a, b in zip(list(ra) + list(ea), arrays(r) + arrays(e))) \
+                    and [list(x) for x in rla] == [list(x) for x in lr] and [list(x) for x in ela] == [list(x) for x in le]
+            except Exception:  # noqa
+                same = False
+            if not same:
+                return ['skip']
+            t, v = core.call_impl(H.evaluate, arrays(r), lr, arrays(e), le, window=w, frame_size=fs, beta=beta)
+            if t != 'ok':
+                return ['exc', v]
+            g = lambda s: [float(v['T-Precision ' + s]), float(v['T-Recall ' + s]), float(v['T-Measure ' + s])]
+            return ['ok', [g('reduced'), g('full'), [float(v['L-Precision']), float(v['L-Recall']), float(v['L-Measure'])]]]
         if k == 'tm':
             _, r, e, tr, w, fs, beta = case
             t, v = core.call_impl(H.tmeasure, arrays(r), arrays(e), transitive=tr, window=w, frame_size=fs, beta=beta)
@@ -277,6 +313,12 @@ Definition check_case (c : case) : bool :=
             F = core.cq_list([core.cq_list(['((%s,%s)%%Z,%s)' % (core.cq_Z(a), core.cq_Z(b), core.cq_str(lab)) for (a, b), lab in zip(l, labs)])
                               for l, labs in zip(out[3], case[2])])
             return '(MEETF %d %s %s)' % (out[2], F, mat(out[1]))
+        if k == 'ev':
+            _, r, lr, e, le, w, fs, beta = case
+            if out[0] == 'skip':      # re-alignment is not the identity here: emit a trivially true case (not counted as non-trivial)
+                return '(LCAF 0 [] [])'
+            return '(EV %s %s %s %s %s %s)' % (lhier(r, lr), lhier(e, le), core.cq_opt(w, Q), Q(fs), Q(beta),
+                                              core.cq_res(out, lambda v: core.cq_list([trip(x) for x in v])))
         if k == 'tm':
             _, r, e, tr, w, fs, beta = case
             return '(TM %s %s %s %s %s %s %s)' % (hier(r), hier(e), core.cq_bool(tr), core.cq_opt(w, Q), Q(fs), Q(beta),
@@ -287,13 +329,15 @@ Definition check_case (c : case) : bool :=
     def nontrivial(self, case, out):
         if out[0] != 'ok':
             return False
+        if case[0] == 'ev':
+            return out[0] == 'ok' and 0.0 < out[1][2][2] < 1.0
         if case[0] in ('tm', 'lm'):
             return 0.0 < out[1][2] < 1.0
         return len(set(x for row in out[1] for x in row)) >= 2
 
     def shrink(self, case):
         k = case[0]
-        if k in ('tm', 'lm'):
+        if k in ('tm', 'lm', 'ev'):
             ri, ei = (1, 2) if k == 'tm' else (1, 3)
             for pos in (ri, ei):
                 h = case[pos]
@@ -301,7 +345,7 @@ Definition check_case (c : case) : bool :=
                     for d in range(len(h)):
                         c = list(case)
                         c[pos] = h[:d] + h[d + 1:]
-                        if k == 'lm':
+                        if k in ('lm', 'ev'):
                             c[pos + 1] = case[pos + 1][:d] + case[pos + 1][d + 1:]
                         yield c
         else:
@@ -322,6 +366,9 @@ Definition check_case (c : case) : bool :=
         for c, o in pairs:
             k = c[0]
             inc(k)
+            if o[0] == 'skip':
+                inc(k + ' skipped (re-alignment not the identity)')
+                continue
             if o[0] != 'ok':
                 inc(k + ' ' + o[1])
             elif k in ('tm', 'lm'):
